@@ -53,5 +53,13 @@ PROP = {
         "job bodies terminate; gated jobs are released by the harness",
         "worker retirement itself is not demanded, only that later jobs still run; it is recorded as coverage (native census)",
     ],
-    "legs": LEGS,
+    "legs": LEGS + [
+        # runtime level: spawn_blocking through 1-4 runtimes sharing one pool, results/panics to their own submitter, gauge, retirement
+        {"name": "rt-pool", "build": "plain", "pkg": "vdrv", "cmd": "c17", "shards": 8,
+         "args": {"quick": ["--iters", 200, "--budget-ms", 45000], "thorough": ["--iters", 10000, "--budget-ms", 400000]},
+         "timeout_s": {"quick": 240, "thorough": 900}},
+        {"name": "rt-pool-tsan", "build": "tsan", "pkg": "vdrv", "cmd": "c17", "shards": 4,
+         "args": {"quick": ["--iters", 60, "--budget-ms", 40000], "thorough": ["--iters", 2000, "--budget-ms", 400000]},
+         "timeout_s": {"quick": 240, "thorough": 900}},
+    ],
 }
